@@ -106,6 +106,7 @@ class LocationPath(BaseASTNode):
         """Find nodes that are on on any path between 'old' and 'new'"""
 
         visited = set()
+        expanded = set()
         intermediate = set()
         if old.issuperset(new): return intermediate
 
@@ -114,11 +115,15 @@ class LocationPath(BaseASTNode):
 
             if node in new:
                 intermediate.update(stack)
-            else:
-                stack = stack + [node]
-                for i in node.values():
-                    if queryIndirect or i.direct:
-                        traverse(i.node, stack)
+                # Other result nodes might only be reachable through this one.
+                if node in expanded: return
+                expanded.add(node)
+
+            stack = stack + [node]
+            for i in node.values():
+                if queryIndirect or i.direct:
+                    traverse(i.node, stack)
+            if node not in new:
                 visited.add(node)
 
         for n in old: traverse(n, [])
